@@ -13,7 +13,8 @@ _state = {'cur': None, 'installed': False}
 LATE = -9
 
 KINDS = ('source', 'handler', 'processor', 'buffer', 'gate', 'batcher', 'sink', 'maintainer', 'scheduler',
-         'psensor', 'qsensor', 'cms')
+         'psensor', 'qsensor', 'cms', 'builder')
+TWIN_KINDS = tuple(k for k in KINDS if k != 'builder')
 
 
 def install():
@@ -73,6 +74,29 @@ def make(kind, name=None, **kw):
         return out
     if kind == 'cms':
         return [Cms(None, name, value=2)]
+    if kind == 'builder':
+        from simprocesd.model.factory_floor.asset import Asset
+
+        class Builder(Asset):
+            """a user-defined asset that builds part of the model when it is initialised"""
+
+            def __init__(self, name):
+                self.children = []
+                self._constructed = False
+                super().__init__(name, value=1)
+                self._constructed = True
+
+            def initialize(self, env):
+                super().initialize(env)
+                child = Buffer('buffer', capacity=2, value=3)
+                if self._constructed:
+                    cur = _state['cur']
+                    if cur is not None:
+                        cur.assets.append(child)       # created by the initialisation loop of simulate()
+                else:
+                    self.children.append(child)        # created on the spot, inside the constructor
+        b = Builder(name)
+        return [b] + b.children
     raise ValueError(kind)
 
 
@@ -130,7 +154,8 @@ class LTracer:
         n = type(a).__name__
         m = {'Source': 'source', 'PartHandler': 'handler', 'PartProcessor': 'processor', 'Buffer': 'buffer',
              'DecisionGate': 'gate', 'PartBatcher': 'batcher', 'Sink': 'sink', 'Maintainer': 'maintainer',
-             'ActionScheduler': 'scheduler', 'PeriodicSensor': 'psensor', 'OutputPartSensor': 'qsensor', 'Cms': 'cms'}
+             'ActionScheduler': 'scheduler', 'PeriodicSensor': 'psensor', 'OutputPartSensor': 'qsensor', 'Cms': 'cms',
+             'Builder': 'builder'}
         k = m.get(n, n)
         if k == 'processor' and a.name == 'qproc':
             k = 'qproc'
@@ -237,8 +262,10 @@ class LTracer:
                 raise ValueError(n)
             kw = {}
             if f['name']:
-                kw['name'] = f['name']
-            if f['id']:
+                kw['name'] = '' if f['name'] == '<empty>' else f['name']       # the empty string is a given filter too
+            if f['id'] == -1:
+                kw['id_'] = 0                                                   # so is the id 0
+            elif f['id']:
                 kw['id_'] = self.assets[f['id'] - 1].id if f['id'] <= len(self.assets) else 10 ** 9
             if f['type']:
                 kw['type_'] = cls(f['type'])
@@ -270,7 +297,7 @@ def run_sequence(tid, ops, seed=0):
     return tr.lines, 0, err
 
 
-FILTER_NAMES = ['', 'nosuch'] + list(KINDS)
+FILTER_NAMES = ['', 'nosuch', '<empty>'] + list(KINDS)
 CLASSES = ['', 'Source', 'PartHandler', 'PartProcessor', 'Buffer', 'DecisionGate', 'PartBatcher', 'Sink',
            'Maintainer', 'ActionScheduler', 'PeriodicSensor', 'OutputPartSensor', 'Cms']
 SUPERS = ['', 'Asset', 'PartFlowController', 'PartHandler', 'Maintainable', 'Sensor', 'PartProcessor', 'Sink']
@@ -280,7 +307,7 @@ SAFE_LATE = ('handler', 'processor', 'buffer', 'gate', 'batcher', 'sink', 'cms')
 def run_random(tid, seed, n):
     rng = _pyrandom.Random(seed)
     if seed % 3 == 0:
-        kinds = KINDS
+        kinds = TWIN_KINDS
         op = {'op': 'twin', 'kind': kinds[(seed // 3) % len(kinds)], 't': rng.choice([1, 2, 3]),
               'h': rng.choice([6, 9]), 'variant': rng.randint(0, 2)}
         return run_twin(tid, op), None, [op]
@@ -300,7 +327,7 @@ def run_random(tid, seed, n):
         else:
             ops.append({'op': 'find', 'sys': -1,
                         'f': {'name': rng.choice(FILTER_NAMES) if rng.random() < 0.4 else '',
-                              'id': rng.choice([0, 0, 1, 2, 3, 50]),
+                              'id': rng.choice([0, 0, 1, 2, 3, 50, -1]),
                               'type': rng.choice(CLASSES) if rng.random() < 0.4 else '',
                               'subtype': rng.choice(SUPERS) if rng.random() < 0.5 else ''}})
     # resolve relative system indices (-1 latest, -2 the one before)
@@ -457,23 +484,41 @@ def _scenario(kind, late, t, H, variant):
         def register(s):
             s.register_object(o, lambda sc, ob, time, st: calls.append([time - shift_box[0], st]))
 
+        sbox = {}
+        states = []
+
         def build():
             s = ActionScheduler(list(tt), 'X', is_cyclical=(variant != 2))
+            sbox['s'] = s
             register(s)
+            states.append([0, str(s.current_state)])
             return s
+
+        def probes(t0):
+            # the state the scheduler reports half a time unit after each whole time since its start-up
+            for k in range(H - t):
+                at(t0 + k + 0.5, lambda k=k: states.append([k + 0.5, str(sbox['s'].current_state)]))
         shift_box = [0]
         if late:
             shift_box[0] = t
             at(t, build)
+            probes(t)
             system.simulate(H, print_summary=False)
             shift, since = t, t
         else:
             # a late-created scheduler starts up before anything can be registered with it; the twin
             # therefore gets its object right after its own start-up (an event at time 0)
             s0 = ActionScheduler(list(tt), 'X', is_cyclical=(variant != 2))
-            at(0, lambda: register(s0))
+            sbox['s'] = s0
+
+            def reg0():
+                register(s0)
+                states.append([0, str(s0.current_state)])
+            at(0, reg0)
+            probes(0)
             system.simulate(H - t, print_summary=False)
         extra['calls'] = calls
+        extra['states'] = states
     elif kind == 'psensor':
         from simprocesd.model.sensors import PeriodicSensor, AttributeProbe
         o = Obj()
